@@ -77,16 +77,25 @@ Qed.
 (* ---------------------------------------------------------------- descriptor transactions (kind 6) *)
 (* Side conditions (Mdib/Proofs_Descr.v):
      mdib_wf m        ddom / cdom list every descriptor / context state, no single state without descriptor,
-                      context descriptors have no single state (preserved by every transaction: C02_history_all);
-     descr_only acts  only add_descriptor / get_descriptor / remove_descriptor / get_state calls (and their entity twins);
-     acts_sep m acts  for every removed handle D: no updated handle, no parent of an added descriptor and no other removed
-                      handle lies in the subtree of D ([below m x D]); the parent of D exists and is not below D.
-   Without acts_sep the clauses on consistency and deletion FAIL (C02_descr_*_refuted below). *)
+                      context descriptors have no single state (a property of the MDIB, preserved by every transaction:
+                      C02_history_all needs it for the initial MDIB only);
+     descr_only acts  only add_descriptor / get_descriptor / remove_descriptor / get_state calls (and their entity twins).
+   No condition relates the calls of one transaction to each other: a transaction that creates or updates a descriptor
+   inside a subtree it removes is refused (C02_descr_conflict_rejected), every other combination - several children of one
+   parent, parent and child, nested removals, any order - is covered by the theorems. *)
+
+(* a transaction that creates / updates a descriptor (or adds a child) inside a subtree it removes: ApiUsageError,
+   the MDIB is exactly what it was *)
+Theorem C02_descr_conflict_rejected : forall m acts t,
+  body 6 m empty_tx acts = Ok t -> subtree_conflict m t = true -> transaction 6 None acts m = (m, 3).
+Proof. exact conflict_rejected. Qed.
+Print Assumptions C02_descr_conflict_rejected.
 
 (* 1. a descriptor that exists before and after a committed descriptor transaction has its version unchanged or + 1;
    + 1 exactly when it is updated by a call or is the parent of an added / removed descriptor - once, however many
-   children are added and removed (its parent, kind and, if only bumped, its content are kept); otherwise it is untouched *)
-Theorem C02_descr_tx_versions : forall m acts, mdib_wf m -> descr_only acts -> acts_sep m acts ->
+   children are added and removed (its parent, kind and, if only bumped, its content are kept); otherwise it is untouched.
+   (A parent that is itself removed does not exist afterwards: C02_descr_tx_survivor.) *)
+Theorem C02_descr_tx_versions : forall m acts, mdib_wf m -> descr_only acts ->
   snd (transaction 6 None acts m) = 0 ->
   forall h d0 d', descrs m h = Some d0 -> descrs (fst (transaction 6 None acts m)) h = Some d' ->
     (touched m acts h /\ d_ver d' = d_ver d0 + 1 /\ d_parent d' = d_parent d0 /\ d_kind d' = d_kind d0 /\
@@ -95,9 +104,15 @@ Theorem C02_descr_tx_versions : forall m acts, mdib_wf m -> descr_only acts -> a
 Proof. exact descr_tx_versions. Qed.
 Print Assumptions C02_descr_tx_versions.
 
+Theorem C02_descr_tx_survivor : forall m acts, mdib_wf m -> descr_only acts ->
+  snd (transaction 6 None acts m) = 0 ->
+  forall h D, In (ADDel D) acts -> In h (subtree m D) -> descrs (fst (transaction 6 None acts m)) h = None.
+Proof. exact descr_tx_survivor. Qed.
+Print Assumptions C02_descr_tx_survivor.
+
 (* frame: a handle that no call names, that is not the parent of an added / removed descriptor and is not below a removed
    one keeps its descriptor (or stays absent) and its state, committed or not *)
-Theorem C02_descr_tx_frame : forall m acts, mdib_wf m -> descr_only acts -> acts_sep m acts ->
+Theorem C02_descr_tx_frame : forall m acts, mdib_wf m -> descr_only acts ->
   forall h, ~ named acts h -> ~ touched m acts h -> (forall D, In (ADDel D) acts -> ~ below m h D) ->
     descrs (fst (transaction 6 None acts m)) h = descrs m h /\ states (fst (transaction 6 None acts m)) h = states m h.
 Proof. exact descr_tx_frame. Qed.
@@ -105,14 +120,14 @@ Print Assumptions C02_descr_tx_frame.
 
 (* 2. every state keeps referring to an existing descriptor and carries its DescriptorVersion - also the states of updated
    descriptors, of bumped parents and of created descriptors *)
-Theorem C02_descr_tx_consistent : forall m acts, mdib_wf m -> descr_only acts -> acts_sep m acts ->
+Theorem C02_descr_tx_consistent : forall m acts, mdib_wf m -> descr_only acts ->
   states_consistent m -> states_consistent (fst (transaction 6 None acts m)).
 Proof. exact descr_tx_consistent. Qed.
 Print Assumptions C02_descr_tx_consistent.
 
 (* a StateVersion moves by at most one; a descriptor that got a new version (updated or bumped) takes its state along:
    new StateVersion, new DescriptorVersion *)
-Theorem C02_descr_tx_states : forall m acts, mdib_wf m -> descr_only acts -> acts_sep m acts ->
+Theorem C02_descr_tx_states : forall m acts, mdib_wf m -> descr_only acts ->
   (forall h o s', states m h = Some o -> states (fst (transaction 6 None acts m)) h = Some s' ->
      s' = o \/ s_ver s' = s_ver o + 1) /\
   (states_consistent m -> forall h d0 d' o, descrs m h = Some d0 -> descrs (fst (transaction 6 None acts m)) h = Some d' ->
@@ -121,9 +136,9 @@ Theorem C02_descr_tx_states : forall m acts, mdib_wf m -> descr_only acts -> act
 Proof. exact descr_tx_states. Qed.
 Print Assumptions C02_descr_tx_states.
 
-(* 3a. removal: the whole subtree (as the model computes it) is gone with its states and context states; the last versions
-   are remembered per handle *)
-Theorem C02_descr_tx_deleted : forall m acts, mdib_wf m -> descr_only acts -> acts_sep m acts ->
+(* 3a. removal: the whole subtree is gone with its states and context states; the last versions are remembered per handle
+   (also when a descendant is removed by a call of its own in the same transaction, in either order) *)
+Theorem C02_descr_tx_deleted : forall m acts, mdib_wf m -> descr_only acts ->
   snd (transaction 6 None acts m) = 0 ->
   forall D x, In (ADDel D) acts -> In x (subtree m D) ->
     descrs (fst (transaction 6 None acts m)) x = None /\ states (fst (transaction 6 None acts m)) x = None /\
@@ -134,21 +149,41 @@ Theorem C02_descr_tx_deleted : forall m acts, mdib_wf m -> descr_only acts -> ac
 Proof. exact descr_tx_deleted. Qed.
 Print Assumptions C02_descr_tx_deleted.
 
-(* 3b. (re-)creation: the added descriptor and its state start at 0 or continue from the remembered version + 1
-   ([set_version sv h 0] = saved + 1 if a version is remembered for h, else 0) *)
-Theorem C02_descr_tx_created : forall m acts, mdib_wf m -> descr_only acts -> acts_sep m acts ->
+(* [subtree m D] is the real subtree: x is in it iff x has a descriptor and D is reachable from x over parent links *)
+Theorem C02_subtree_exact : forall m, mdib_wf m -> forall D x,
+  In x (subtree m D) <-> descrs m x <> None /\ below m x D.
+Proof. exact subtree_exact. Qed.
+Print Assumptions C02_subtree_exact.
+
+(* 3b. (re-)creation: the added descriptor starts at 0 or continues from the remembered version + 1
+   ([set_version sv h 0] = saved + 1 if a version is remembered for h, else 0); it is one higher only when the same
+   transaction also removes a descriptor that named this (so far missing) handle as its parent - an orphan; the state of
+   the added descriptor carries the descriptor's version and continues its own counter *)
+Theorem C02_descr_tx_created : forall m acts, mdib_wf m -> descr_only acts ->
   snd (transaction 6 None acts m) = 0 ->
   forall h par k p sp, In (ADAdd h par k p sp) acts ->
     descrs m h = None /\
-    descrs (fst (transaction 6 None acts m)) h = Some (mkDescr par k (set_version (sv_d m) h 0) p) /\
-    (k <> K_CTX -> exists s, states (fst (transaction 6 None acts m)) h = Some s /\
-                             s_dver s = set_version (sv_d m) h 0 /\ s_ver s = set_version (sv_s m) h 0).
+    exists d', descrs (fst (transaction 6 None acts m)) h = Some d' /\ d_parent d' = par /\ d_kind d' = k /\ d_pay d' = p /\
+      (d_ver d' = set_version (sv_d m) h 0 \/
+       (d_ver d' = set_version (sv_d m) h 0 + 1 /\
+        exists c dc, In (ADDel c) acts /\ descrs m c = Some dc /\ d_parent dc = Some h)) /\
+      (k <> K_CTX -> exists s, states (fst (transaction 6 None acts m)) h = Some s /\ s_dver s = d_ver d' /\
+                               s_ver s = set_version (sv_s m) h 0).
 Proof. exact descr_tx_created. Qed.
 Print Assumptions C02_descr_tx_created.
 
-(* 4. histories of transactions of ALL kinds (state, context, descriptor; aborted ones arbitrary), each well-formed for the
-   MDIB it meets ([hist_ok]): well-formedness and state <-> descriptor consistency are preserved, the version of every
-   descriptor handle - present or remembered, so also across delete and re-create - never decreases *)
+Theorem C02_descr_tx_created_exact : forall m acts, mdib_wf m -> descr_only acts ->
+  snd (transaction 6 None acts m) = 0 ->
+  forall h par k p sp, In (ADAdd h par k p sp) acts ->
+    (forall c dc, In (ADDel c) acts -> descrs m c = Some dc -> d_parent dc <> Some h) ->
+    descrs (fst (transaction 6 None acts m)) h = Some (mkDescr par k (set_version (sv_d m) h 0) p).
+Proof. exact descr_tx_created_exact. Qed.
+Print Assumptions C02_descr_tx_created_exact.
+
+(* 4. histories of transactions of ALL kinds (state, context, descriptor with ANY descriptor calls; aborted ones arbitrary;
+   [hist_ok] only says that the calls fit the kind of transaction and that uuid4 handles are fresh): well-formedness and
+   state <-> descriptor consistency are preserved, the version of every descriptor handle - present or remembered, so also
+   across delete and re-create - never decreases *)
 Theorem C02_history_all : forall hist m, mdib_wf m -> hist_ok m hist ->
   mdib_wf (exec m hist) /\
   (states_consistent m -> states_consistent (exec m hist)) /\
@@ -157,28 +192,25 @@ Theorem C02_history_all : forall hist m, mdib_wf m -> hist_ok m hist ->
 Proof. exact all_history. Qed.
 Print Assumptions C02_history_all.
 
-(* the separation condition is necessary: committed descriptor transactions on a well-formed, consistent MDIB
-   (1 <- 2 <- 3, every descriptor with a state) that leave a state without descriptor *)
-Theorem C02_descr_consistent_refuted_add_below_removed : refutes [ADAdd 4 (Some 2) K_METRIC 40 41; ADDel 2] 4.
-Proof. exact consistent_refuted_add_below_removed. Qed.
-Print Assumptions C02_descr_consistent_refuted_add_below_removed.
-Theorem C02_descr_consistent_refuted_update_below_removed : refutes [ADUpd 3 33; ADDel 2] 3.
-Proof. exact consistent_refuted_update_below_removed. Qed.
-Print Assumptions C02_descr_consistent_refuted_update_below_removed.
-Theorem C02_descr_consistent_refuted_nested_remove : refutes [ADDel 3; ADDel 1] 2.
-Proof. exact consistent_refuted_nested_remove. Qed.
-Print Assumptions C02_descr_consistent_refuted_nested_remove.
-(* in the model a descendant that is updated after the removal of its ancestor is re-created *)
-Theorem C02_descr_deleted_refuted_update_after_remove :
-  mdib_wf w_m /\ descr_only [ADDel 2; ADUpd 3 33] /\ snd (transaction 6 None [ADDel 2; ADUpd 3 33] w_m) = 0 /\
-  In 3 (subtree w_m 2) /\ descrs (fst (transaction 6 None [ADDel 2; ADUpd 3 33] w_m)) 3 <> None.
-Proof. exact deleted_refuted_update_after_remove. Qed.
-Print Assumptions C02_descr_deleted_refuted_update_after_remove.
+(* the transactions that used to leave states without a descriptor (or raised in the middle of the commit) on
+   1 <- 2 <- 3 are refused now; a removal nested in another removal commits to a consistent MDIB *)
+Example C02_descr_add_below_removed_rejected : rejected [ADAdd 4 (Some 2) K_METRIC 40 41; ADDel 2].
+Proof. exact add_below_removed_rejected. Qed.
+Example C02_descr_update_below_removed_rejected : rejected [ADUpd 3 33; ADDel 2].
+Proof. exact update_below_removed_rejected. Qed.
+Example C02_descr_update_after_remove_rejected : rejected [ADDel 2; ADUpd 3 33].
+Proof. exact update_after_remove_rejected. Qed.
+Example C02_descr_nested_remove_commits :
+  let r := transaction 6 None [ADDel 3; ADDel 1] w_m in
+  snd r = 0 /\ ver (fst r) = 1 /\ states_consistent (fst r) /\ mdib_wf (fst r) /\
+  map (descrs (fst r)) [1; 2; 3] = [None; None; None] /\ map (states (fst r)) [1; 2; 3] = [None; None; None] /\
+  map (sv_d (fst r)) [1; 2; 3] = [Some 0; Some 0; Some 0] /\ map (sv_s (fst r)) [1; 2; 3] = [Some 0; Some 0; Some 0].
+Proof. exact nested_remove_commits. Qed.
 
 (* the hypotheses of the descriptor theorems are satisfiable: parent 2 with children 3 and 4, one transaction adds 5
    below 2 (5 has remembered versions 6 / 2), removes 3 and updates 4 *)
 Example C02_descr_nonvacuous :
-  mdib_wf ex_m /\ states_consistent ex_m /\ descr_only ex_acts /\ acts_sep ex_m ex_acts /\
+  mdib_wf ex_m /\ states_consistent ex_m /\ descr_only ex_acts /\
   let r := transaction 6 None ex_acts ex_m in
   snd r = 0 /\ ver (fst r) = 11 /\
   map (descrs (fst r)) [1; 2; 3; 4; 5] =
